@@ -166,6 +166,7 @@ pub fn observe(parse: fn(&str, u8, u64) -> Raw, input: &str, mode: u8, salt: u64
     CTX_CALLS.with(|c| c.borrow_mut().clear());
     FUEL.with(|f| f.set(0));
     INPUT_LEN.with(|l| l.set(input.len()));
+    verif_core::hooks::set_panic_mode(salt == verif_core::hooks::PANIC_SALT);
     // the plain mode parses a slice from the MIDDLE of a larger, reused buffer: text that is not the input lies directly
     // before and behind it (a continuation that looks like more input), and successive inputs share their address
     let r = if mode == MODE_PLAIN {
@@ -187,6 +188,7 @@ pub fn observe(parse: fn(&str, u8, u64) -> Raw, input: &str, mode: u8, salt: u64
     } else {
         verif_core::util::catch(|| parse(input, mode, salt))
     };
+    verif_core::hooks::set_panic_mode(false);
     let hooks = verif_core::hooks::drain_log();
     let trace = TRACE.with(|t| std::mem::take(&mut *t.borrow_mut()));
     let ctx_calls = CTX_CALLS.with(|c| std::mem::take(&mut *c.borrow_mut()));
